@@ -21,6 +21,7 @@ import (
 	"os"
 	"path/filepath"
 	"runtime"
+	"runtime/pprof"
 
 	"github.com/jech/galene/rtpconn"
 
@@ -501,7 +502,7 @@ func randomHistory(t *tr.Trace, r *tr.Rand, idx int) {
 	joinMsg := func(g string) *smsg {
 		u := randUser()
 		m := join(g, u.name)
-		if r.Chance(1, 500) {
+		if r.Chance(1, 2000) {
 			m.Pw = "wrong"
 			t.Note("join-wrong-password")
 		}
@@ -655,6 +656,16 @@ func randomHistory(t *tr.Trace, r *tr.Rand, idx int) {
 	if h.transients > 0 {
 		t.Note("history-with-aliasing-transient")
 	}
+	switch {
+	case h.maxOut <= 16:
+		t.Note("largest-outbox<=16")
+	case h.maxOut <= 64:
+		t.Note("largest-outbox<=64")
+	case h.maxOut <= 256:
+		t.Note("largest-outbox<=256")
+	default:
+		t.Note("largest-outbox>256")
+	}
 }
 
 // ---------------------------------------------------------------- main
@@ -668,7 +679,8 @@ func runUsers(t *tr.Trace, r *tr.Rand, n int) {
 	r = tr.NewRand(r.U64())
 	sigdrv.Quiet()
 	// a client is sent at most a few hundred messages between two steps
-	rtpconn.VerifWriteBuffer = 1 << 12
+	// (see the largest-outbox notes); 1024 slots = a 16 KB allocation, not a large object
+	rtpconn.VerifWriteBuffer = 1 << 10
 	corpus(t, r)
 	for i := 0; i < 6; i++ {
 		faultHistory(t, r, i, i%2 == 1)
@@ -679,5 +691,10 @@ func runUsers(t *tr.Trace, r *tr.Rand, n int) {
 }
 
 func main() {
+	if f := os.Getenv("USERS_PROF"); f != "" {
+		fh, _ := os.Create(f)
+		pprof.StartCPUProfile(fh)
+		defer pprof.StopCPUProfile()
+	}
 	tr.Main(runUsers)
 }
